@@ -311,7 +311,7 @@ def finish(ctx, level="model_checking", rule="", extra_cov=None):
         "wall_s": round(time.time() - ctx.t0, 1),
         "violations": len(unlisted),
     }
-    if not ctx.replay:
+    if not ctx.replay and not os.environ.get("VERIF_NO_EVIDENCE"):
         os.makedirs(os.path.join(VERIF, "evidence"), exist_ok=True)
         with open(os.path.join(VERIF, "evidence", ctx.prop + ".json"), "w") as fh:
             json.dump(ev, fh, indent=1, sort_keys=True)
